@@ -33,7 +33,7 @@ def fingerprint_changes():
     return [n for n in MIRRORED if (cur.get(n) or {}).get('hash') != exp.get(n)]
 
 def budgets(tier, escalate):
-    b = dict(sweeps=1, shards=8, per=5, emf=1) if tier != 'thorough' else dict(sweeps=3, shards=16, per=40, emf=3)
+    b = dict(sweeps=2, shards=8, per=8, emf=1) if tier != 'thorough' else dict(sweeps=3, shards=16, per=40, emf=3)
     if escalate:
         b['sweeps'] += 2; b['per'] *= 3; b['shards'] = 16
     return b
@@ -81,7 +81,8 @@ def run(rep, prop=PROP):
     # 2. real event loops (seeded), probes of the known findings first
     def real(i):
         return srvrun.run_real(binary, os.path.join(wd, 'real'), rep.seed * 1000 + i, b['per'], 'r2,r4' if i == 0 else '')
-    nreal = 0; real_hist = {}
+    nreal = 0; real_hist = {}; suspects = []
+    def i_probes(seed): return 'r2,r4' if seed == rep.seed * 1000 else ''
     with ThreadPoolExecutor(max_workers=8) as ex:
         for res in ex.map(real, range(b['shards'])):
             for seed, line, verdict in res:
@@ -97,7 +98,20 @@ def run(rep, prop=PROP):
                 if kv.get('probe') == 'r4' and R4_TAG in tags:
                     findings_seen.add('real:r4'); tags = [t for t in tags if t != R4_TAG]
                 if tags:
-                    problems.append(('real', None, 'impl-violates-spec', ','.join(tags) + ' in: ' + line, ['real %d %d' % (seed, b['per']), '# ' + line]))
+                    suspects.append((seed, i_probes(seed), kv.get('id'), set(tags), line))
+    # a real-time observation that fails is re-run (same seed = same plan, new timing) before it is reported:
+    # the deterministic windows are the sweeps' job, this stage validates the environment assumptions
+    for seed, probes, sid, tags, line in suspects:
+        confirmed = 0
+        for attempt in range(3):
+            for _, l2, v2 in srvrun.run_real(binary, os.path.join(wd, 'rerun'), seed, b['per'], probes):
+                if l2.startswith('obs') and srvrun.kvs(l2).get('id') == sid and v2 != 'OK' and tags & set(v2.split(' ', 1)[1].split(',')):
+                    confirmed += 1
+            if confirmed: break
+        if confirmed:
+            problems.append(('real', None, 'impl-violates-spec', ','.join(sorted(tags)) + ' in: ' + line, ['real %d %d' % (seed, b['per']), '# ' + line]))
+        else:
+            rep.notes.append('sporadic real-time observation, not reproduced in 3 re-runs of the same seed (not reported): %s in: %s' % (','.join(sorted(tags)), line[:400]))
     if len(samples) < 4:
         pass
     # 3. descriptor exhaustion in a child process (RLIMIT_NOFILE lowered there), two episodes each
@@ -149,6 +163,7 @@ def report(rep, problems, proof_broken, findings_seen):
             print('KNOWN-FINDING: property=%s %s%s' % (PROP, k['what'], '' if seen else ' [probe did not reproduce it in this run]'))
 
 def replay(rep, path):
+    common.regen()
     binary, out = srvrun.build()
     common.lake_build(['npdriver'])
     st = srvrun.steps(); cfg = srvrun.detect_cfg(st)
